@@ -109,7 +109,18 @@ sc::Scene transformScene(const sc::Scene &s, int a, int b, int c2, int d, double
         if (sc::isRect(sh)) { sc::Box bb = sc::bbox(sh); sc::P p0 = T({bb.x0, bb.y0}), p1 = T({bb.x1, bb.y1}); sh = sc::rectPoly(std::min(p0.x, p1.x), std::min(p0.y, p1.y), std::max(p0.x, p1.x), std::max(p0.y, p1.y)); }
         else { for (auto &p : sh) p = T(p); if (flip) std::reverse(sh.begin(), sh.end()); }
     }
-    for (auto &k : t.conns) { k.a = T(k.a); k.b = T(k.b); for (auto &q : k.checkpoints) q = T(q); }
+    // ConnDirFlags travel with the frame: Up = 1 (towards -y), Down = 2, Left = 4, Right = 8
+    auto mapDirs = [&](int f) {
+        if (f == 15 || f == 0) return f;
+        static const int vec[4][2] = {{0, -1}, {0, 1}, {-1, 0}, {1, 0}};
+        int out = 0;
+        for (int bit = 0; bit < 4; bit++) if (f & (1 << bit)) {
+            int vx = a * vec[bit][0] + b * vec[bit][1], vy = c2 * vec[bit][0] + d * vec[bit][1];
+            out |= vy < 0 ? 1 : (vy > 0 ? 2 : (vx < 0 ? 4 : 8));
+        }
+        return out;
+    };
+    for (auto &k : t.conns) { k.a = T(k.a); k.b = T(k.b); for (auto &q : k.checkpoints) q = T(q); k.adirs = mapDirs(k.adirs); k.bdirs = mapDirs(k.bdirs); }
     return t;
 }
 Verdict eval_route(const sc::Scene &s, double tx, double ty) {
@@ -143,7 +154,9 @@ Verdict eval_route(const sc::Scene &s, double tx, double ty) {
         Routes S = routeScene(transformScene(s, M[m][0], M[m][1], M[m][2], M[m][3], 0, 0));
         for (size_t i = 0; i < A.raw.size() && v.ok; i++) {
             double ca = orth ? sc::orthCost(A.raw[i], pen) : sc::polyCost(A.disp[i], pen), cs = orth ? sc::orthCost(S.raw[i], pen) : sc::polyCost(S.disp[i], pen);
-            if (std::fabs(ca - cs) > 1e-9 * std::max(1.0, ca)) v.fail(fmt("connector %zu: the symmetry (%d %d / %d %d) changes the route cost from %.12g to %.12g; routes %s / %s", i, M[m][0], M[m][1], M[m][2], M[m][3], ca, cs, sc::ptsStr(orth ? A.raw[i] : A.disp[i]).c_str(), sc::ptsStr(orth ? S.raw[i] : S.disp[i]).c_str()), "route-cost-not-symmetric");
+            bool restricted = false; for (auto &k : s.conns) if (k.adirs != 15 || k.bdirs != 15) restricted = true;
+            if (restricted) v.cls("direction-restricted-end-points");
+            if (std::fabs(ca - cs) > 1e-9 * std::max(1.0, ca)) v.fail(fmt("connector %zu: the symmetry (%d %d / %d %d) changes the route cost from %.12g to %.12g; routes %s / %s", i, M[m][0], M[m][1], M[m][2], M[m][3], ca, cs, sc::ptsStr(orth ? A.raw[i] : A.disp[i]).c_str(), sc::ptsStr(orth ? S.raw[i] : S.disp[i]).c_str()), restricted ? "route-cost-not-symmetric-with-direction-flags" : "route-cost-not-symmetric");
         }
     }
     return v;
@@ -208,7 +221,16 @@ sc::Scene gen_s() {
     int span = irange(12, 50);
     sc::genShapes(s, 8, span, 1, orth ? 0 : 30, false);
     int k = irange(1, 4);
-    for (int i = 0; i < k; i++) { sc::Conn c; c.type = orth ? 2 : 1; if (!sc::genFreePoint(s, span, 1, c.a) || !sc::genFreePoint(s, span, 1, c.b) || c.a == c.b) continue; s.conns.push_back(c); }
+    // Known finding F50: with direction-restricted free end points the orthogonal router is far from frame independent (it finds
+    // no route in one orientation and a proper one after a quarter turn).  Excluded by construction: end points use ConnDirAll.
+    // (transformScene() does map the flags, so the witness replays.)
+    bool dirs = false;
+    for (int i = 0; i < k; i++) {
+        sc::Conn c; c.type = orth ? 2 : 1;
+        if (!sc::genFreePoint(s, span, 1, c.a) || !sc::genFreePoint(s, span, 1, c.b) || c.a == c.b) continue;
+        if (dirs) { c.adirs = pick(std::vector<int>{15, 12, 3, 1, 2, 4, 8, 9, 6}); c.bdirs = pick(std::vector<int>{15, 15, 12, 3, 1, 2, 4, 8}); }
+        s.conns.push_back(c);
+    }
     return s;
 }
 LCase gen_l() {
